@@ -2,11 +2,15 @@
   C10 model driver. One S-expression per line in, one per line out.
 
     (introspect DEF (registry "n"…) (impls ("I" "o"…)…) (features "f"…))   → (intro …) | (error "…")
-    (accepted   DEF (registry "n"…) (impls ("I" "o"…)…))                    → (accepted wf closed implsExact kindsOk featuresOk)  (five booleans)
+    (accepted   DEF (registry "n"…) (impls ("I" "o"…)…))                    → (accepted wf closed implsExact kindsOk featuresOk namesOk)  (six booleans)
     (new DEF)                                                                → (reg (registry "n"…) (impls ("I" "o"…)…))
     (clone BASE DEF)                                                         → DEF'   (the model's clone; identities ≥ BASE are new)
     (rebuild DEF (registry …) (impls …) (features …))                        → DEF' | (error "…")   (rebuild (introspect S F), table restricted to what Inspect reaches)
     (marshal DEF TYPE VAL)                                                   → (some "text") | none
+    (roundtrip DEF TYPE VAL "text")                                          → (rt covered nf parses coerces)   (four booleans: the value is of the
+                                                                               classes default_roundtrip covers; it is in coercion normal form; the
+                                                                               specification parser reads "text" as exactly the literal denoting VAL;
+                                                                               that literal coerces back to VAL)
 
   DEF  := (def (types T…) (query O) (mutation O) (subscription O) (additional ID "n"…) (directives ID DD…))
   O    := none | (some "name")                 ID := none | <nat>
@@ -24,6 +28,7 @@
 import ApiFu.Common.Sexp
 import ApiFu.Common.Loop
 import ApiFu.C10.Model
+import ApiFu.C10.Literal
 
 open ApiFu ApiFu.C10
 
@@ -328,6 +333,15 @@ def sIntro (x : IntroData) : Sexp :=
   Sexp.node "intro" [sOptStr x.queryType, sOptStr x.mutationType, sOptStr x.subscriptionType,
     Sexp.node "types" (x.types.map sTypeD), Sexp.node "directives" (x.directives.map sDirectiveD)]
 
+partial def sLit : Lit → Sexp
+  | .null => .atom "null"
+  | .int i => Sexp.node "int" [Sexp.ofInt i]
+  | .str cs => Sexp.node "str" [.atom (String.ofList cs)]
+  | .bool b => Sexp.node "bool" [Sexp.ofBool b]
+  | .enum n => Sexp.node "enum" [.atom (String.ofList n)]
+  | .list xs => Sexp.node "list" (xs.map sLit)
+  | .obj fs => Sexp.node "obj" (fs.map fun (k, v) => Sexp.list [.atom (String.ofList k), sLit v])
+
 def err (msg : String) : String := toString (Sexp.node "error" [.atom msg])
 
 def mkSchema (d : GDef) (reg : List String) (impls : List (String × List String)) : Schema :=
@@ -344,7 +358,7 @@ def handle (line : String) : String :=
     | some d, some reg, some impls =>
       let S := mkSchema d reg impls
       toString (Sexp.node "accepted" [Sexp.ofBool (wf S.defn), Sexp.ofBool (closed S), Sexp.ofBool (implsExact S),
-        Sexp.ofBool (kindsOk S.defn), Sexp.ofBool (featuresOk S)])
+        Sexp.ofBool (kindsOk S.defn), Sexp.ofBool (featuresOk S), Sexp.ofBool (namesOk S.defn)])
     | _, _, _ => err "bad-arguments"
   | some (.list [.atom "new", d]) =>
     match pDef d with
@@ -370,6 +384,17 @@ def handle (line : String) : String :=
   | some (.list [.atom "marshal", d, t, v]) =>
     match pDef d, pType t, pVal v with
     | some d, some t, some v => toString (sOptStr (marshalValue d t.ref v))
+    | _, _, _ => err "bad-arguments"
+  | some (.list [.atom "roundtrip", d, t, v, .atom text]) =>
+    match pDef d, pType t, pVal v with
+    | some d, some t, some v =>
+      let parses := match parseLit (2 * text.length + 4) text.toList with
+        | some (lit, []) => toString (sLit lit) == toString (sLit (litOf v))
+        | _ => false
+      let coerces := match coerceLit d t.ref (litOf v) with
+        | some v' => toString (sVal v') == toString (sVal v)
+        | none => false
+      toString (Sexp.node "rt" [Sexp.ofBool (covered v), Sexp.ofBool (nf d t.ref v), Sexp.ofBool parses, Sexp.ofBool coerces])
     | _, _, _ => err "bad-arguments"
   | _ => "bad-op"
 
